@@ -11,6 +11,39 @@ class Skip(Exception):
     bounds / validity predicate.  Treated as 'precondition not met'."""
 
 
+class ModelGap(BaseException):
+    """The real code reached an API that the harness's environment model does not
+    cover (e.g. a refactoring now calls ``os.rename`` where the model only knows
+    ``os.replace``).  Nothing can be said about such a path: the partition is
+    reported INCONCLUSIVE (never as a violation, never as confirmed).  A
+    BaseException so that ``except Exception`` in the code under analysis does
+    not swallow it."""
+
+
+GAPS: List[str] = []
+
+
+def gap(what: str):
+    GAPS.append(str(what))
+    raise ModelGap(what)
+
+
+class Gappy:
+    """Base class of environment models: an attribute the model does not define
+    is a model gap, not an AttributeError inside the code under analysis."""
+
+    def __getattr__(self, k):
+        if k.startswith("__") and k.endswith("__"):
+            raise AttributeError(k)
+        gap(f"{type(self).__name__}.{k} is not modelled")
+
+
+def gappy(ns, name=None):
+    """Turn a namespace class of staticmethods (``class P: join = staticmethod(...)``)
+    into an instance whose missing attributes are model gaps."""
+    return type(name or ns.__name__, (ns, Gappy), {})()
+
+
 @dataclasses.dataclass
 class Obligation:
     """One solver-decided proof obligation.
